@@ -34,6 +34,7 @@ SOFTWARE.
 
 #%%
 import math
+from fractions import Fraction
 import numpy as np
 from . import _n_word_max
 
@@ -466,6 +467,8 @@ def round_object(x, method):
             return _round(v) if math.isfinite(v) else v
         if isinstance(v, np.floating):      # e.g. extended precision (longdouble) elements
             return int(_np_round(v)) if np.isfinite(v) else v
+        if isinstance(v, Fraction):         # exact quotients (raw results that dropped fraction bits)
+            return int(_round(v))
         return v
     vals = [_round_one(v) for v in x.flatten()]
     return np.array(vals, dtype=object).reshape(x.shape)
